@@ -67,6 +67,18 @@ def directed_cases(seed: int, tier: str) -> typing.List[dict]:
             {"op": "generate", "opts": {"gen_support": "only", "file_mode": 0o444}},
             {"op": "generate", "opts": {"gen_support": "always", "file_mode": 0o644}},
         ],
+        "symlinked-entries-then-regen": [
+            {"op": "generate", "opts": {"file_mode": 0o444}},
+            {"op": "link", "pick": 0, "style": "sym_outside", "content": "keep", "mode": 0o444},
+            {"op": "link", "pick": -1, "style": "sym_inside", "content": "foreign\n", "mode": 0o644},
+            {"op": "generate", "opts": {"file_mode": 0o640}},
+            {"op": "generate", "opts": {"file_mode": 0o444, "no_overwrite": True}},
+        ],
+        "hardlinked-entry-then-regen": [
+            {"op": "generate", "opts": {}},
+            {"op": "link", "pick": 1, "style": "hard", "content": "keep", "mode": 0o444},
+            {"op": "generate", "opts": {"file_mode": 0o600}},
+        ],
         "chmod0-then-regen": [
             {"op": "generate", "opts": {}},
             {"op": "chmod", "pick": 0, "mode": 0o000},
@@ -212,7 +224,7 @@ def run_case(case: dict, ctx: dict) -> dict:
         enabled_faults = r.subset(FAULT_KINDS + ["extprog_fail"], 1, 2) or ["crash"]
         for i in range(n_ops):
             ro = r.sub("op", i)
-            kind = ro.weighted([("generate", 10), ("chmod", 2), ("plant", 2), ("truncate", 1), ("remove", 1)]) if i > 0 else "generate"
+            kind = ro.weighted([("generate", 10), ("chmod", 2), ("plant", 2), ("truncate", 1), ("remove", 1), ("link", 2)]) if i > 0 else "generate"
             if kind == "generate":
                 t = {"op": "generate", "opts": _vary_opts(ro.sub("opts"), base, tier)}  # type: typing.Dict[str, typing.Any]
                 if faulty_case and ro.chance(1, 3):
@@ -233,6 +245,15 @@ def run_case(case: dict, ctx: dict) -> dict:
                 templates.append(t)
             elif kind == "truncate":
                 templates.append({"op": "truncate", "pick": ro.below(1000), "size": ro.choice([0, 1, 100])})
+            elif kind == "link":
+                # an entry of the output directory becomes a symbolic or hard link to a file elsewhere (a build cache,
+                # a vendored copy); "keep" = the linked file holds what the entry held, else foreign content
+                t = {"op": "link", "style": ro.choice(["sym_outside", "sym_outside_rel", "sym_inside", "hard"]), "content": ro.choice(["keep", "keep", "foreign\n", ""]), "mode": ro.choice([0o644, 0o444, 0o600, 0o640])}
+                if ro.chance(1, 3):
+                    t["pick_future"] = ro.below(1000)
+                else:
+                    t["pick"] = ro.below(1000)
+                templates.append(t)
             else:
                 templates.append({"op": "remove", "pick": ro.below(1000)})
 
@@ -247,6 +268,8 @@ def run_case(case: dict, ctx: dict) -> dict:
     last_ref_files = []  # type: typing.List[str]
     ev_digests = []  # type: typing.List[str]
     out = world.out_dir
+    vault = os.path.join(sandbox, "vault")  # files elsewhere on the disk that entries of the output directory link to
+    os.makedirs(vault, exist_ok=True)
 
     def violation(sig: str, detail: dict) -> None:
         detail = dict(detail)
@@ -256,8 +279,9 @@ def run_case(case: dict, ctx: dict) -> dict:
     for ti, t in enumerate(templates):
         op = dict(t)
         kind = op["op"]
-        pre = snapshot.snapshot(out, with_mtime=False)
-        pre_files = snapshot.files_of(pre)
+        pre = snapshot.snapshot(out, with_mtime=False, follow_file_links=True)
+        pre.update({"../vault/" + k: v for k, v in snapshot.snapshot(vault, with_mtime=False).items()})
+        pre_files = {k: v for k, v in snapshot.files_of(pre).items() if not k.startswith("../vault/")}
         existing = sorted(pre_files)
         if kind == "generate":
             opts = dict(op["opts"])
@@ -294,8 +318,9 @@ def run_case(case: dict, ctx: dict) -> dict:
             res = proc.run_invocation(inv)
             evaluations += 1
             ev_digests.append(nnvg.event_digest(res))
-            post = snapshot.snapshot(out, with_mtime=False)
-            post_files = snapshot.files_of(post)
+            post = snapshot.snapshot(out, with_mtime=False, follow_file_links=True)
+            post.update({"../vault/" + k: v for k, v in snapshot.snapshot(vault, with_mtime=False).items()})
+            post_files = {k: v for k, v in snapshot.files_of(post).items() if not k.startswith("../vault/")}
             bump("ops", "generate")
             bump("status", res["status"].split(":")[0] if not res["status"].startswith("exc:") else res["status"])
             for k, v in res.get("probes", {}).items():
@@ -398,6 +423,31 @@ def run_case(case: dict, ctx: dict) -> dict:
                 with open(p, "w", encoding="utf-8") as f:
                     f.write(op["content"])
                 os.chmod(p, op["mode"])
+            elif kind == "link":
+                if os.path.isdir(p) or any(os.path.isfile(os.path.join(out, *path.split("/")[:i])) for i in range(1, len(path.split("/")))):
+                    continue
+                os.makedirs(os.path.dirname(p), exist_ok=True)
+                content = op["content"]
+                if content == "keep":
+                    content = open(p, "r", encoding="utf-8", newline="").read() if os.path.isfile(p) else "kept-nothing\n"
+                if os.path.lexists(p):
+                    os.remove(p)
+                n_links = len(os.listdir(vault))
+                if op["style"] == "sym_inside":
+                    target = os.path.join(out, "_linked", "f%d%s" % (n_links, os.path.splitext(p)[1]))
+                    os.makedirs(os.path.dirname(target), exist_ok=True)
+                    open(os.path.join(vault, "marker%d" % n_links), "w").close()
+                else:
+                    target = os.path.join(vault, "f%d%s" % (n_links, os.path.splitext(p)[1]))
+                with open(target, "w", encoding="utf-8", newline="") as f:
+                    f.write(content)
+                os.chmod(target, op["mode"])
+                if op["style"] == "hard":
+                    os.link(target, p)
+                elif op["style"] == "sym_outside_rel" or op["style"] == "sym_inside":
+                    os.symlink(os.path.relpath(target, os.path.dirname(p)), p)
+                else:
+                    os.symlink(target, p)
             elif not os.path.isfile(p):
                 continue
             elif kind == "chmod":
@@ -411,6 +461,8 @@ def run_case(case: dict, ctx: dict) -> dict:
             trace_key.append("%s|%s|%s" % (kind, nnvg.sig_kind(path), op.get("mode", op.get("size", ""))))
         executed.append(op)
         states.append(snapshot.digest(snapshot.snapshot(out, with_mtime=False)))
+        if kind == "link":
+            bump("probes", "entry_replaced_by_%s_link" % ("hard" if op["style"] == "hard" else "symbolic"))
 
     exec_case = {
         "label": case.get("label"),
